@@ -766,6 +766,7 @@ func (f *FnEnc) store(a *Addr, v Val) {
 		f.guardStore(a, v)
 		f.writeField(a.Comp, a.Ref, v.T)
 	case akBox:
+		f.guardBoxStore(a, v)
 		f.writeField(a.Comp, a.Ref, v.T)
 	case akObj:
 		if f.e.reg.isStruct(a.Typ) {
@@ -826,7 +827,7 @@ func (f *FnEnc) guardStore(a *Addr, v Val) {
 		return
 	}
 	for _, g := range f.e.guards {
-		if g.Elem || !g.Comps[a.Comp] {
+		if g.Elem || !g.Comps[a.Comp] || !g.appliesIn(f.name) {
 			continue
 		}
 		tags := g.Tags
@@ -834,11 +835,27 @@ func (f *FnEnc) guardStore(a *Addr, v Val) {
 			continue
 		}
 		env := f.guardEnv(a.Ref, a.Comp, v.T)
-		if strings.HasPrefix(v.S, "Slice") {
+		if strings.HasPrefix(v.S, "Slice") || len(g.Funcs) > 0 {
 			env["oldv"] = f.readField(a.Comp, a.Ref)
 		}
 		goal := f.evalClause(g.Expr, env)
 		f.oblige("guard", g.Name+"."+a.Comp, tags, goal, "")
+	}
+}
+
+// guardBoxStore: rules written for stores into boxes (captured variables, boxed locals) apply
+// only where a rule names the function, so ordinary locals are never affected.
+func (f *FnEnc) guardBoxStore(a *Addr, v Val) {
+	if f.noGuard {
+		return
+	}
+	for _, g := range f.e.guards {
+		if g.Elem || !g.Comps[a.Comp] || len(g.Funcs) == 0 || !g.Funcs[f.name] || !f.wantTags(g.Tags) {
+			continue
+		}
+		env := f.guardEnv(a.Ref, a.Comp, v.T)
+		env["oldv"] = f.readField(a.Comp, a.Ref)
+		f.oblige("guard", g.Name+"."+a.Comp, g.Tags, f.evalClause(g.Expr, env), "")
 	}
 }
 
@@ -857,7 +874,7 @@ func (f *FnEnc) guardStoreObj(a *Addr) {
 				hit = fi.Comp
 			}
 		}
-		if hit == "" || !f.wantTags(g.Tags) {
+		if hit == "" || !f.wantTags(g.Tags) || !g.appliesIn(f.name) {
 			continue
 		}
 		env := f.guardEnv(a.Ref, hit, "")
@@ -876,7 +893,7 @@ func exprAtoms(e *SX) map[string]bool {
 
 func (f *FnEnc) guardElemStore(a *Addr) {
 	for _, g := range f.e.guards {
-		if !g.Elem || !g.Comps[a.ArrComp] {
+		if !g.Elem || !g.Comps[a.ArrComp] || !g.appliesIn(f.name) {
 			continue
 		}
 		if !f.wantTags(g.Tags) {
